@@ -3,21 +3,32 @@
 mod verif_kani {
     use super::*;
 
+    // a buffer of symbolic content and length 0..=4, built with concrete sizes (cheap for CBMC)
+    fn buffer_of(init: &[u8; 4], n: usize) -> Vec<u8> {
+        match n {
+            0 => vec![],
+            1 => vec![init[0]],
+            2 => vec![init[0], init[1]],
+            3 => vec![init[0], init[1], init[2]],
+            _ => vec![init[0], init[1], init[2], init[3]],
+        }
+    }
+
     // C06.memory.write: under the StorageData precondition (inside the data, or a pure append)
-    // the buffer afterwards is write_at(old, pos, bytes).  Buffers up to 6 bytes, writes up to 3: bounded.
+    // the buffer afterwards is write_at(old, pos, bytes).  Buffers up to 4 bytes, writes up to 2: bounded.
     #[kani::proof]
     #[kani::unwind(10)]
     fn c06_memory_write() {
-        let init: [u8; 6] = kani::any();
+        let init: [u8; 4] = kani::any();
         let n: usize = kani::any();
-        kani::assume(n <= 6);
-        let data: [u8; 3] = kani::any();
+        kani::assume(n <= 4);
+        let data: [u8; 2] = kani::any();
         let m: usize = kani::any();
-        kani::assume(m <= 3);
+        kani::assume(m <= 2);
         let pos: usize = kani::any();
         kani::assume(pos <= n && (pos + m <= n || pos == n));
         let mut s = MemoryStorage {
-            buffer: init[..n].to_vec(),
+            buffer: buffer_of(&init, n),
             name: String::new(),
         };
         assert!(s.write(pos as u64, &data[..m]).is_ok());
@@ -35,11 +46,11 @@ mod verif_kani {
     #[kani::proof]
     #[kani::unwind(10)]
     fn c06_memory_read_resize() {
-        let init: [u8; 6] = kani::any();
+        let init: [u8; 4] = kani::any();
         let n: usize = kani::any();
-        kani::assume(n <= 6);
+        kani::assume(n <= 4);
         let mut s = MemoryStorage {
-            buffer: init[..n].to_vec(),
+            buffer: buffer_of(&init, n),
             name: String::new(),
         };
         let pos: usize = kani::any();
@@ -54,7 +65,7 @@ mod verif_kani {
         }
         drop(r);
         let new_len: usize = kani::any();
-        kani::assume(new_len <= 8);
+        kani::assume(new_len <= 6);
         assert!(s.resize(new_len as u64).is_ok());
         assert!(s.len() as usize == new_len);
         let mut i = 0;
